@@ -207,10 +207,12 @@ func VerifC09_Relay() {
 	snkC := c09ED_(w, "Sink", snk)
 	src.c = srcC
 	capOf := func(name string) int { return 1 + verifrt.Choice(name, 2) }
+	// both directions of every port get an arbitrary capacity (the unused
+	// direction must not influence the notifications of the used one)
 	src.out = w.port(srcC, "Src.Out", 1, capOf("src-out-cap"))
 	rel.in = w.port(relC, "Relay.In", capOf("relay-in-cap"), 1)
 	rel.out = w.port(relC, "Relay.Out", 1, capOf("relay-out-cap"))
-	snk.in = w.port(snkC, "Sink.In", capOf("sink-in-cap"), 1)
+	snk.in = w.port(snkC, "Sink.In", capOf("sink-in-cap"), []int{1, 3}[verifrt.Choice("sink-out-cap", 2)])
 	w.connect("Conn1", src.out, rel.in)
 	w.connect("Conn2", rel.out, snk.in)
 	srcC.ScheduleWakeAt(src.sendAt[0])
@@ -230,7 +232,7 @@ func VerifC09_Ticking() {
 	srcC := modeling.NewTickingComponent("Src", w.engine, freqs[verifrt.Choice("src-freq", 3)], src)
 	snkC := modeling.NewTickingComponent("Sink", w.engine, freqs[verifrt.Choice("sink-freq", 3)], snk)
 	src.out = w.port(srcC, "Src.Out", 1, 1+verifrt.Choice("src-out-cap", 2))
-	snk.in = w.port(snkC, "Sink.In", 1+verifrt.Choice("sink-in-cap", 2), 1)
+	snk.in = w.port(snkC, "Sink.In", 1+verifrt.Choice("sink-in-cap", 2), []int{1, 3}[verifrt.Choice("sink-out-cap", 2)])
 	w.connect("Conn", src.out, snk.in)
 	w.engine.SetCurrentTime(timing.VTimeInPicoSec(verifrt.Uint64Range("t0", 0, 4000)))
 	srcC.TickNow()
